@@ -522,14 +522,30 @@ func (r *rw) stmt(s ast.Stmt) []ast.Stmt {
 		}
 		return []ast.Stmt{v}
 	case *ast.ForStmt:
-		if (v.Cond != nil && r.hasSync(v.Cond)) || (v.Post != nil && r.hasSync(v.Post)) {
-			r.unsupported(v, "sync op in for condition/post")
+		if v.Post != nil && r.hasSync(v.Post) {
+			r.unsupported(v, "sync op in for post statement")
 		}
 		var pre []ast.Stmt
 		if v.Init != nil && r.hasSync(v.Init) {
 			pre = append(pre, r.yield())
 		}
+		condSync := v.Cond != nil && r.hasSync(v.Cond)
+		if condSync {
+			r.funcLitsIn(v.Cond)
+			r.checkStrayLocks(v.Cond)
+		}
 		r.block(v.Body)
+		if condSync {
+			// for init; cond; post { body }  ==  for init; ; post { if !(cond) { break }; body }
+			// with a scheduling point ahead of every evaluation of the condition (e.g. len(ch) of a channel)
+			cond := v.Cond
+			v.Cond = nil
+			guard := &ast.IfStmt{
+				Cond: &ast.UnaryExpr{Op: token.NOT, X: &ast.ParenExpr{X: cond}},
+				Body: &ast.BlockStmt{List: []ast.Stmt{&ast.BranchStmt{Tok: token.BREAK}}},
+			}
+			v.Body.List = append([]ast.Stmt{r.yield(), guard}, v.Body.List...)
+		}
 		return append(pre, v)
 	case *ast.RangeStmt:
 		r.funcLitsIn(v.X)
